@@ -171,7 +171,10 @@ func (m *Machine) runInits(l *Loaded) (err error) {
 	m.env = m.env[:0]
 	m.dom = map[int32]*dom256{}
 	m.origin = map[*Term][]*Term{}
-	for _, path := range []string{modPath + "/url", modPath + "/canonicalizer", modPath + "/internal/whatwgmodel"} {
+	// only the packages every harness needs; canonicalizer's initialiser runs when the first
+	// canonicalizer harness is explored (ensureInit), so that url-package harnesses see exactly the
+	// initial state their native replay binary (which cannot import canonicalizer) sees
+	for _, path := range []string{modPath + "/url", modPath + "/internal/whatwgmodel"} {
 		p := l.pkgs[path]
 		if p == nil {
 			continue
@@ -184,5 +187,44 @@ func (m *Machine) runInits(l *Loaded) (err error) {
 	m.initSteps = m.steps
 	m.initDone = true
 	m.stepBudget = m.opts.stepBudget
+	return nil
+}
+
+// ensureInit runs the initialiser of an additional package (once per machine), as part of the
+// pre-existing (epoch 0) state.
+func (m *Machine) ensureInit(l *Loaded, path string) (err error) {
+	if m.extraInit[path] {
+		return nil
+	}
+	m.extraInit[path] = true
+	p := l.pkgs[path]
+	if p == nil {
+		return nil
+	}
+	defer func() {
+		if r := recover(); r != nil {
+			switch e := r.(type) {
+			case *pathEnd:
+				err = fmt.Errorf("init %s: %s: %s", path, e.kind, e.msg)
+			case *goPanicV:
+				err = fmt.Errorf("init %s: go panic: %s", path, e.msg)
+			default:
+				panic(r)
+			}
+		}
+	}()
+	// undo whatever the last path left in init-time state first
+	m.resetPath(WorkItem{})
+	m.solver.PathEnd()
+	m.initDone = false
+	m.epoch = 0
+	saveBudget := m.stepBudget
+	m.stepBudget = 50_000_000
+	m.steps = 0
+	if initFn := p.Func("init"); initFn != nil {
+		m.callFunction(initFn, nil, nil, nil)
+	}
+	m.initDone = true
+	m.stepBudget = saveBudget
 	return nil
 }
